@@ -742,9 +742,9 @@ func (env *Env) tr(x Expr) (Term, error) {
 		if !ok {
 			return t, fmt.Errorf("field %s of non-struct sort %s", x.F, t.Sort)
 		}
-		for _, f := range si.Fields {
+		for i, f := range si.Fields {
 			if f.Name == x.F {
-				return Term{"(" + f.Sel + " " + t.S + ")", f.Sort}, nil
+				return Term{selOf(si, i, t.S), f.Sort}, nil
 			}
 		}
 		return t, fmt.Errorf("sort %s has no field %s", t.Sort, x.F)
@@ -782,7 +782,7 @@ func (env *Env) tr(x Expr) (Term, error) {
 								parts[i] = v.S
 								found = true
 							} else {
-								parts[i] = "(" + f.Sel + " " + rec.S + ")"
+								parts[i] = selOf(si, i, rec.S)
 							}
 						}
 						if !found {
